@@ -21,7 +21,10 @@
 
    where every `c` / `n` is the value the condition takes in this run (the harness passes it
    in a command field of its own), and `ops` is a sequence of finish statements:
-   emit / create / delete / update / a finish-function call.
+   emit / create / delete / update / a finish-function call.  Concretisation added by the
+   harness when rendering (not modelled, must not change the outcome): the recall block is
+   `recall r(m int, t int)` entered as `recall r(7, this.tag)` and first checks its two
+   arguments and `this.tag`; every command also has a decoy block `recall z()` that emits.
 
    REFERENCE SEMANTICS (`Run`).  Statements run in order.  A false `call` panics; a false
    check runs its else expression: panic, or *recall* — the evaluation continues in the recall
